@@ -54,6 +54,36 @@ def label_cases(rng, count):
     return cases
 
 
+def long_shared_pairs(rng, count):
+    """(actual, expected) texts that share a long prefix in which characters of 1 to 4 bytes are mixed, and differ near the end or
+    only in length: what a label that abbreviates, aligns or diffs its two texts has to cut - at every byte alignment"""
+    alphabet = ["a", "b", " ", ",", "é", "ß", "日", "本", "😀", "\"", "\\", "{", "}"]
+    out = []
+    for k in range(count):
+        n = rng.choice([40, 47, 48, 49, 60, 61, 62, 63, 64, 65, 100, 127, 128, 129, 255, 256, 257, 1023, 1024, 1025, 5000])
+        pre = ""
+        while len(pre.encode("utf-8")) < n:
+            pre += rng.choice(alphabet) if rng.random() < 0.6 else rng.choice("abcdefgh ")
+        pre = "a" * (k % 4) + pre                   # shift the alignment of everything after
+        tail_a, tail_e = rng.choice([("5\"", "4\""), ("", "x"), ("é", "è"), ("日本", "日"), ("😀", "😀😀"), ("\"", "\"")])
+        q = rng.choice(["\"", ""])
+        out.append((q + pre + tail_a, q + pre + tail_e))
+    return out
+
+
+def report_cases(rng, count):
+    """whole reports formatted through Display for ErrorReport (no readable source: the listing with one label per entry): every
+    label kind with ordinary, spacing-sensitive, directive-like and long shared-prefix texts.  Formatting happens inside panic!, so a
+    panic here is an abort."""
+    specs = kind_specs(rng)
+    pairs = [(a, e) for a in TEXTS[:4] for e in TEXTS[:3]] + [(t, t) for t in SPACED + FORMATLIKE] + long_shared_pairs(rng, count)
+    cases = []
+    for i, (a, e) in enumerate(pairs):
+        for s in (specs if i % 7 == 0 else rng.sample(specs, min(4, len(specs))) + [x for x in specs if x.startswith("cmp")][:6]):
+            cases.append("\t".join(["fallback", hx("tests/it.rs"), "2", s, "3", hx(a), hx(e), rng.choice(specs), "9", hx(e), "none"]))
+    return cases
+
+
 def fallback_cases(rng, count):
     specs = kind_specs(rng)
     cases = []
